@@ -455,7 +455,53 @@ def run_case(chk, stream, case):
         fails.append(oracle("C10:second-conversion-differs:%s" % name, "%s: the same composed object converts to different bytes the second time" % ctx))
     if back2 != got:
         fails.append(oracle("C10:second-parse-differs:%s" % name, "%s: the same payload parses to different fields the second time: %s / %s" % (ctx, got[:150], back2[:150])))
+    # ---- a REFUSED conversion leaves nothing behind: the quoted message of a reply is made unconvertible (a number where text belongs: the payload
+    #      library refuses it), the conversion fails, the application puts the field right and sends again — the payload is the one composed
+    holder = _first_quote(obj)
+    if holder is not None:
+        q = holder._quoted_message
+        slot = None
+        for o, attr in ((q, "_conversation"), (getattr(q, "_extended_text", None), "_text"), (getattr(q, "_image", None), "_caption")):
+            if o is not None and isinstance(getattr(o, attr, None), str):
+                slot = (o, attr, getattr(o, attr))
+                break
+        if slot is not None:
+            o, attr, keep = slot
+            setattr(o, attr, 12345)
+            refused = False
+            try:
+                ps.to_proto(name, obj).SerializeToString()
+            except Exception:
+                refused = True
+            setattr(o, attr, keep)
+            if refused:
+                chk.hit("object:refused-then-retried")
+                try:
+                    data3 = ps.to_proto(name, obj).SerializeToString()
+                except Exception as e:
+                    fails.append(oracle("C10:retry-after-refusal-raises:%s" % name, "%s: after a refused conversion (a quoted message with a number in a text field), the corrected "
+                                        "object raises %s" % (ctx, type(e).__name__)))
+                    return fails
+                if data3 != data:
+                    back3 = " ".join(tokens_of(name, ps.from_proto(name, ps.parse(name, data3)), table)) if hasattr(ps, "parse") else ""
+                    fails.append(oracle("C10:retry-after-refusal-differs:%s" % name, "%s: a conversion was refused (a quoted message with a number in a text field); the field was put "
+                                        "right and the same object converted again: the payload differs from the one composed %s" % (ctx, back3[:160])))
     return fails
+
+
+def _first_quote(o, depth=0, seen=None):
+    """the first attribute object (depth first) that carries a quoted message"""
+    seen = seen if seen is not None else set()
+    if o is None or id(o) in seen or depth > 8 or not hasattr(o, "__dict__"):
+        return None
+    seen.add(id(o))
+    if getattr(o, "_quoted_message", None) is not None:
+        return o
+    for v in o.__dict__.values():
+        r_ = _first_quote(v, depth + 1, seen)
+        if r_ is not None:
+            return r_
+    return None
 
 
 def _brief(spec):
